@@ -355,61 +355,28 @@ theorem userStripGo_eq_userSplit (es : List (Bytes × Bytes)) (recip : Bytes) :
   unfold userSplit
   simp
 
-/-- the function without the whole-recipient lookup computes rules 1, 3 and 4 only -/
-theorem stripvdomW_false (t : Tables) (recip : Bytes) :
-    stripvdomW false t recip = match domainPart recip with
-      | none => recip
-      | some d => if isLocal t.locals d then recip else prefixUndone t.vdoms recip d := by
-  unfold stripvdomW prefixUndone
+/-- the loops of `stripvdomprepend` compute the local-channel rule -/
+theorem stripvdom_eq_named (t : Tables) (recip : Bytes) :
+    stripvdom t recip = namedRecipient true t.locals t.vdoms recip := by
+  unfold stripvdom namedRecipient prefixUndone
   rw [domainOf_eq_domainPart]
+  simp only [Bool.not_true, Bool.false_eq_true, if_false]
   cases domainPart recip with
   | none => rfl
   | some d =>
-    simp only [firstHit_eq_governing, cmMember_eq_isLocal, userStripGo_eq_userSplit, Bool.false_and,
-      Bool.false_eq_true, if_false]
+    simp only [firstHit_eq_governing, cmMember_eq_isLocal, userStripGo_eq_userSplit]
     split
     · rfl
     · cases userSplit t.vdoms recip with
       | some r => rfl
       | none => cases governing t.vdoms d <;> rfl
 
-/-- the function with the whole-recipient lookup (notes/C14-fix-3.diff) computes the documented rule -/
-theorem stripvdomW_true (t : Tables) (recip : Bytes) :
-    stripvdomW true t recip = namedRecipient t.locals t.vdoms recip := by
-  unfold stripvdomW namedRecipient prefixUndone hasException
-  rw [domainOf_eq_domainPart]
-  cases domainPart recip with
-  | none => rfl
-  | some d =>
-    simp only [firstHit_eq_governing, cmMember_eq_isLocal, userStripGo_eq_userSplit, Bool.true_and,
-      ← entryFor_eq_cmLookup]
-    split
-    · rfl
-    · split
-      · rfl
-      · cases userSplit t.vdoms recip with
-        | some r => rfl
-        | none => cases governing t.vdoms d <;> rfl
-
-/-- **where code and documented rule can differ**: the source has the whole-recipient lookup
-(`w = true`), or this recipient has no exception entry (`recipient:` with an empty prepend) of its own -/
-def faithful (w : Bool) (es : List (Bytes × Bytes)) (recip : Bytes) : Bool := w || !hasException es recip
-
-theorem stripvdomW_eq_named (w : Bool) (t : Tables) (recip : Bytes) (h : faithful w t.vdoms recip = true) :
-    stripvdomW w t recip = namedRecipient t.locals t.vdoms recip := by
-  cases w with
-  | true => exact stripvdomW_true t recip
-  | false =>
-    rw [stripvdomW_false]
-    have hx : hasException t.vdoms recip = false := by simpa [faithful] using h
-    unfold namedRecipient
-    cases domainPart recip with
-    | none => rfl
-    | some d => simp [hx]
-
-theorem stripvdom_eq_named (t : Tables) (recip : Bytes) (h : faithful Gen.stripWholeFirst t.vdoms recip = true) :
-    stripvdom t recip = namedRecipient t.locals t.vdoms recip :=
-  stripvdomW_eq_named _ t recip h
+/-- what `addbounce` names is what the channel-aware rule demands -/
+theorem nameOf_eq_named (t : Tables) (fl : Bool) (recip : Bytes) :
+    nameOf t fl recip = namedRecipient fl t.locals t.vdoms recip := by
+  cases fl with
+  | true => simp only [nameOf, if_true]; exact stripvdom_eq_named t recip
+  | false => simp [nameOf, namedRecipient]
 
 /-! ### the literal in-place loop equals the forward pass -/
 
@@ -506,12 +473,12 @@ theorem scanInPlace_eq (s : Bytes) : scanInPlace s = scanFrom false s := by
 /-- the report without one final LF -/
 def chomp1 (r : Bytes) : Bytes := if r.getLast? = some LF then r.dropLast else r
 
-/-- the recipient as it is shown: prefix removed, LF as '_' -/
-def shown (es : Tables) (recip : Bytes) : Bytes := (stripvdom es recip).map lf2us
+/-- the name as it is shown: LF as '_' -/
+def shown (name : Bytes) : Bytes := (name).map lf2us
 
 /-- everything `addbounce` writes except the two final LFs, before the scan -/
-def rawPara (es : Tables) (recip report : Bytes) : Bytes :=
-  LANGLE :: (shown es recip ++ [RANGLE, COLON] ++ (if report = [] then [] else LF :: chomp1 report))
+def rawPara (name report : Bytes) : Bytes :=
+  LANGLE :: (shown name ++ [RANGLE, COLON] ++ (if report = [] then [] else LF :: chomp1 report))
 
 theorem getLast_split (r : Bytes) (h : r.getLast? = some LF) : r = r.dropLast ++ [LF] := by
   induction r with
@@ -527,14 +494,14 @@ theorem getLast_split (r : Bytes) (h : r.getLast? = some LF) : r = r.dropLast ++
 
 theorem lf2us_langle : lf2us LANGLE = LANGLE := by simp [lf2us, LANGLE, LF]
 
-theorem addbounceText_form (es : Tables) (recip report : Bytes) :
-    addbounceText es recip report = squashAll false (rawPara es recip report) ++ [LF, LF] := by
-  have key : ∀ t4, t4 = rawPara es recip report ++ [LF] →
-      scanFrom false t4 ++ [LF] = squashAll false (rawPara es recip report) ++ [LF, LF] := by
+theorem addbounceText_form (name report : Bytes) :
+    addbounceNamed name report = squashAll false (rawPara name report) ++ [LF, LF] := by
+  have key : ∀ t4, t4 = rawPara name report ++ [LF] →
+      scanFrom false t4 ++ [LF] = squashAll false (rawPara name report) ++ [LF, LF] := by
     intro t4 h
     rw [h, scanFrom_snoc]
     simp
-  unfold addbounceText
+  unfold addbounceNamed
   apply key
   by_cases hr : report = []
   · simp [hr, rawPara, shown, lf2us_langle]
@@ -549,7 +516,7 @@ theorem addbounceText_form (es : Tables) (recip report : Bytes) :
     · have hb : (report.getLast? != some LF) = true := by simpa using hl
       simp [he, hb, hl, rawPara, shown, chomp1, hr, lf2us_langle]
 
-theorem lf_not_mem_shown (es : Tables) (recip : Bytes) : LF ∉ shown es recip := by
+theorem lf_not_mem_shown (name : Bytes) : LF ∉ shown name := by
   unfold shown
   intro h
   rw [List.mem_map] at h
@@ -559,47 +526,47 @@ theorem lf_not_mem_shown (es : Tables) (recip : Bytes) : LF ∉ shown es recip :
   · simp [hc, USCORE, LF] at ha
   · simp [hc] at ha
 
-theorem lf_not_mem_hdr (es : Tables) (recip : Bytes) : LF ∉ shown es recip ++ [RANGLE, COLON] := by
+theorem lf_not_mem_hdr (name : Bytes) : LF ∉ shown name ++ [RANGLE, COLON] := by
   intro h
   rw [List.mem_append] at h
   cases h with
-  | inl h => exact lf_not_mem_shown es recip h
+  | inl h => exact lf_not_mem_shown name h
   | inr h => simp [RANGLE, COLON, LF] at h
 
-theorem recipLine_eq (es : Tables) (recip : Bytes) :
-    recipLine (stripvdom es recip) = LANGLE :: (shown es recip ++ [RANGLE, COLON]) ++ [LF] := by
+theorem recipLine_eq (name : Bytes) :
+    recipLine (name) = LANGLE :: (shown name ++ [RANGLE, COLON]) ++ [LF] := by
   have : (fun c : Byte => if c = LF then (95 : Byte) else c) = lf2us := by
     funext c; simp [lf2us, USCORE]
   simp [recipLine, shown, this, LANGLE, RANGLE, COLON]
 
 /-- the scanned text for an empty report: just `<recipient>:` -/
-theorem scanned_nil (es : Tables) (recip : Bytes) :
-    squashAll false (rawPara es recip []) = LANGLE :: (shown es recip ++ [RANGLE, COLON]) := by
-  have := squashAll_lffree LANGLE (shown es recip ++ [RANGLE, COLON]) [] false (by simp [LANGLE, LF]) (lf_not_mem_hdr es recip)
+theorem scanned_nil (name : Bytes) :
+    squashAll false (rawPara name []) = LANGLE :: (shown name ++ [RANGLE, COLON]) := by
+  have := squashAll_lffree LANGLE (shown name ++ [RANGLE, COLON]) [] false (by simp [LANGLE, LF]) (lf_not_mem_hdr name)
   simpa [rawPara, squashAll] using this
 
 /-- the scanned text for a non-empty report: recipient line, then the report (minus one final LF)
 with every LF that follows an LF shown as '/' -/
-theorem scanned_cons (es : Tables) (recip report : Bytes) (hr : report ≠ []) :
-    squashAll false (rawPara es recip report) = recipLine (stripvdom es recip) ++ squashAll true (chomp1 report) := by
-  have := squashAll_lffree LANGLE (shown es recip ++ [RANGLE, COLON]) (LF :: chomp1 report) false (by simp [LANGLE, LF]) (lf_not_mem_hdr es recip)
-  have e : rawPara es recip report = LANGLE :: (shown es recip ++ [RANGLE, COLON]) ++ LF :: chomp1 report := by
+theorem scanned_cons (name report : Bytes) (hr : report ≠ []) :
+    squashAll false (rawPara name report) = recipLine (name) ++ squashAll true (chomp1 report) := by
+  have := squashAll_lffree LANGLE (shown name ++ [RANGLE, COLON]) (LF :: chomp1 report) false (by simp [LANGLE, LF]) (lf_not_mem_hdr name)
+  have e : rawPara name report = LANGLE :: (shown name ++ [RANGLE, COLON]) ++ LF :: chomp1 report := by
     simp [rawPara, hr]
   rw [e, this, recipLine_eq, squashAll_cons]
   simp
 
 /-- `addbounce` writes: the recipient line, the report with every LF that follows an LF shown as
 '/', and one empty line (two if the report ended in an empty line of its own) -/
-theorem addbounceText_shape (es : Tables) (recip report : Bytes) :
-    addbounceText es recip report =
-      recipLine (stripvdom es recip) ++ squashAll true (chomp1 report)
+theorem addbounceText_shape (name report : Bytes) :
+    addbounceNamed name report =
+      recipLine (name) ++ squashAll true (chomp1 report)
         ++ (if report = [] then [LF] else [LF, LF]) := by
   rw [addbounceText_form]
   by_cases hr : report = []
   · subst hr
     rw [scanned_nil, recipLine_eq]
     simp [chomp1, squashAll]
-  · rw [scanned_cons es recip report hr]
+  · rw [scanned_cons name report hr]
     simp [hr]
 
 theorem endSt_lffree (a : Bytes) (s : PSt) (hm : LF ∉ a) (hne : a ≠ []) : endSt s a = .mid := by
@@ -613,93 +580,93 @@ theorem endSt_lffree (a : Bytes) (s : PSt) (hm : LF ∉ a) (hne : a ≠ []) : en
     | cons d u => cases s <;> simp [endSt, hc, ih .mid ht (by simp)]
 
 /-- the paragraph a reader sees for one `addbounce` call -/
-def paraCore (es : Tables) (recip report : Bytes) : Bytes :=
-  if endSt .blank (squashAll false (rawPara es recip report)) = .bol
-  then squashAll false (rawPara es recip report)
-  else squashAll false (rawPara es recip report) ++ [LF]
+def paraCore (name report : Bytes) : Bytes :=
+  if endSt .blank (squashAll false (rawPara name report)) = .bol
+  then squashAll false (rawPara name report)
+  else squashAll false (rawPara name report) ++ [LF]
 
-theorem inPara_rawPara (es : Tables) (recip report : Bytes) :
-    inPara .blank (squashAll false (rawPara es recip report)) = true := by
+theorem inPara_rawPara (name report : Bytes) :
+    inPara .blank (squashAll false (rawPara name report)) = true := by
   unfold rawPara
   rw [squashAll_cons]
   simp [inPara, (inPara_squashAll _).1, LANGLE, LF]
 
-theorem scanned_ne (es : Tables) (recip report : Bytes) :
-    squashAll false (rawPara es recip report) ≠ [] := by
+theorem scanned_ne (name report : Bytes) :
+    squashAll false (rawPara name report) ≠ [] := by
   unfold rawPara; rw [squashAll_cons]; simp
 
 /-- **One call, one paragraph**, whatever follows in the file. -/
-theorem paras_addbounceText (es : Tables) (recip report rest : Bytes) :
-    paras .blank (addbounceText es recip report ++ rest) = paraCore es recip report :: paras .blank rest := by
+theorem paras_addbounceText (name report rest : Bytes) :
+    paras .blank (addbounceNamed name report ++ rest) = paraCore name report :: paras .blank rest := by
   rw [addbounceText_form]
-  have hin := inPara_rawPara es recip report
-  have hne := scanned_ne es recip report
+  have hin := inPara_rawPara name report
+  have hne := scanned_ne name report
   have hend := endSt_inPara _ .blank hin hne
-  have := paras_inPara (squashAll false (rawPara es recip report)) (LF :: LF :: rest) .blank hin (Or.inr hne)
+  have := paras_inPara (squashAll false (rawPara name report)) (LF :: LF :: rest) .blank hin (Or.inr hne)
   simp only [List.append_assoc, List.cons_append, List.nil_append]
   rw [this]
   unfold paraCore
-  cases h : endSt .blank (squashAll false (rawPara es recip report)) with
+  cases h : endSt .blank (squashAll false (rawPara name report)) with
   | blank => exact absurd h hend
   | bol => simp [paras, pprep]
   | mid => simp [paras, pprep, pcons]
 
-theorem paras_bounceFile (es : Tables) (fails : List (Bytes × Bytes)) (rest : Bytes) :
-    paras .blank (bounceFile es fails ++ rest) = fails.map (fun f => paraCore es f.1 f.2) ++ paras .blank rest := by
+theorem paras_bounceFile (es : Tables) (fails : List Fail) (rest : Bytes) :
+    paras .blank (bounceFile es fails ++ rest)
+      = fails.map (fun f => paraCore (nameOf es f.1 f.2.1) f.2.2) ++ paras .blank rest := by
   induction fails with
   | nil => simp [bounceFile]
   | cons f fs ih =>
-    obtain ⟨r, t⟩ := f
-    simp only [bounceFile, List.append_assoc, paras_addbounceText, ih, List.map_cons, List.cons_append]
+    obtain ⟨fl, r, t⟩ := f
+    simp only [bounceFile, addbounceText, List.append_assoc, paras_addbounceText, ih, List.map_cons, List.cons_append]
 
 /-- the paragraph is what was written minus the final empty line(s) -/
-theorem paraCore_prefix (es : Tables) (recip report : Bytes) :
-    addbounceText es recip report = paraCore es recip report ++ [LF] ∨
-    addbounceText es recip report = paraCore es recip report ++ [LF, LF] := by
+theorem paraCore_prefix (name report : Bytes) :
+    addbounceNamed name report = paraCore name report ++ [LF] ∨
+    addbounceNamed name report = paraCore name report ++ [LF, LF] := by
   rw [addbounceText_form]
   unfold paraCore
-  by_cases h : endSt .blank (squashAll false (rawPara es recip report)) = .bol
+  by_cases h : endSt .blank (squashAll false (rawPara name report)) = .bol
   · right; simp [h]
   · left; simp [h]
 
 /-- for an empty report the paragraph is the recipient line alone -/
-theorem paraCore_nil (es : Tables) (recip : Bytes) :
-    paraCore es recip [] = recipLine (stripvdom es recip) := by
+theorem paraCore_nil (name : Bytes) :
+    paraCore name [] = recipLine (name) := by
   unfold paraCore
   rw [scanned_nil, recipLine_eq]
-  have hm : LF ∉ LANGLE :: (shown es recip ++ [RANGLE, COLON]) := by
+  have hm : LF ∉ LANGLE :: (shown name ++ [RANGLE, COLON]) := by
     intro h
     rw [List.mem_cons] at h
     cases h with
     | inl h => simp [LANGLE, LF] at h
-    | inr h => exact lf_not_mem_hdr es recip h
+    | inr h => exact lf_not_mem_hdr name h
   rw [endSt_lffree _ .blank hm (by simp)]
   simp
 
 /-- the paragraph starts with the recipient line -/
-theorem recipLine_prefix_paraCore (es : Tables) (recip report : Bytes) :
-    recipLine (stripvdom es recip) <+: paraCore es recip report := by
+theorem recipLine_prefix_paraCore (name report : Bytes) :
+    recipLine (name) <+: paraCore name report := by
   by_cases hr : report = []
   · subst hr; rw [paraCore_nil]; exact List.prefix_refl _
   · unfold paraCore
-    rw [scanned_cons es recip report hr]
+    rw [scanned_cons name report hr]
     split
     · exact ⟨_, rfl⟩
     · exact ⟨squashAll true (chomp1 report) ++ [LF], by simp⟩
 
-theorem namedInOrder_cores (es : Tables) (fails : List (Bytes × Bytes))
-    (h : ∀ f ∈ fails, faithful Gen.stripWholeFirst es.vdoms f.1 = true) :
-    NamedInOrder es.locals es.vdoms fails (fails.map (fun f => paraCore es f.1 f.2)) := by
+theorem namedInOrder_cores (es : Tables) (fails : List Fail) :
+    NamedInOrder es.locals es.vdoms fails (fails.map (fun f => paraCore (nameOf es f.1 f.2.1) f.2.2)) := by
   induction fails with
   | nil => simp [NamedInOrder]
   | cons f fs ih =>
     simp only [List.map_cons, NamedInOrder]
-    refine ⟨?_, ih (fun g hg => h g (List.mem_cons_of_mem _ hg))⟩
-    rw [← stripvdom_eq_named es f.1 (h f (List.mem_cons_self ..))]
-    exact recipLine_prefix_paraCore es f.1 f.2
+    refine ⟨?_, ih⟩
+    rw [← nameOf_eq_named]
+    exact recipLine_prefix_paraCore _ f.2.2
 
-theorem paragraphs_bounceFile (es : Tables) (fails : List (Bytes × Bytes)) :
-    paragraphs (bounceFile es fails) = fails.map (fun f => paraCore es f.1 f.2) := by
+theorem paragraphs_bounceFile (es : Tables) (fails : List Fail) :
+    paragraphs (bounceFile es fails) = fails.map (fun f => paraCore (nameOf es f.1 f.2.1) f.2.2) := by
   have := paras_bounceFile es fails []
   simpa [paragraphs, paras] using this
 
